@@ -30,7 +30,7 @@ class Alg:
         if isinstance(v, LF):
             e = z3.IntVal(v.k) if v.k or not v.c else None
             for t, co in sorted(v.c.items()):
-                a = z3.Int(t[1]) if t[0] == 'x' else z3.Int('M!%d' % t[1])
+                a = z3.Int(t[1]) if t[0] == 'x' else z3.Int('%s!%d' % (t[0], t[1]))
                 term = a if co == 1 else co * a
                 e = term if e is None else e + term
             return e if e is not None else z3.IntVal(0)
@@ -69,7 +69,9 @@ class Alg:
                 A, B = s.atom_ops[i]; memo[i] = s.eval_lf(A, env) * s.eval_lf(B, env) % P
             return memo[i]
         tot = v.k
-        for t, co in v.c.items(): tot += co * (env[t[1]] if t[0] == 'x' else atom(t[1]))
+        for t, co in v.c.items():
+            if t[0] == 'L': raise Unsupported('value depends on the low word of a wide product (representation dependent)')
+            tot += co * (env[t[1]] if t[0] == 'x' else atom(t[1]))
         return tot % P
 
 def cls_of(v, what='operand'):
@@ -87,6 +89,8 @@ def all_concrete(vals): return all(is_c(v) for v in vals)
 def install_scalar(w, alg):
     """contracts of Goldilocks::add/sub/mul(Element&, const Element&, const Element&): result class = a op b"""
     w.alg = alg; w.contracts_used = set()
+    import gv.interp as _ip
+    _ip.FALG[0] = alg
     names = {'add': '@_ZN10Goldilocks3addERNS_7ElementERKS0_S3_', 'sub': '@_ZN10Goldilocks3subERNS_7ElementERKS0_S3_', 'mul': '@_ZN10Goldilocks3mulERNS_7ElementERKS0_S3_'}
     def fop(op):
         def h(it, args):
@@ -114,6 +118,12 @@ def install_predicates(w, alg):
     w.hooks[E % '5isOne'] = cond_hook('isOne', lambda a: (a - 1) % P == 0)
     w.hooks[E % '8isNegone'] = cond_hook('isNegone', lambda a: (a + 1) % P == 0)
     w.hooks['@_ZN10Goldilocks5equalERKNS_7ElementES2_'] = cond_hook('equal', lambda a, b: (a - b) % P == 0)
+
+def lane_contracts(n):
+    """lane kernels summarised by install_lanes (each one must be an obligation of any run that relies on them)"""
+    sfx = '_avx512' if n == 8 else '_avx'
+    return ['add' + sfx, 'sub' + sfx, 'mult' + sfx, 'square' + sfx, 'mult' + sfx + '_8', 'mult' + sfx + '_72', 'mult' + sfx + '_128', 'square' + sfx + '_128',
+            'reduce' + sfx + '_96_64', 'reduce' + sfx + '_128_64'] + (['add_avx_b_small'] if n == 4 else ['add_avx512_b_c', 'sub_avx512_b_c'])
 
 def install_lanes(w, alg, ctx, cfg):
     """lane-level contracts of the AVX2 / AVX512 kernels (class level); operand assumptions are discharged on concrete operands"""
@@ -149,6 +159,42 @@ def install_lanes(w, alg, ctx, cfg):
     reg('mult' + sfx + '_8', alg.mul, eight)
     if n == 4: reg('add_avx_b_small', alg.add, small)
     else: reg('add_avx512_b_c', alg.add, canon); reg('sub_avx512_b_c', alg.sub, canon)
+    # wide products: (c_h, c_l) with c_h·2^64 + c_l = a·b as integers.  c_l is a fresh atom L; the class of c_h is then (a·b - L)·2^-64, and its
+    # integer bound is kept so that sums of high words (plain 64-bit adds in the kernels) stay field additions; reduce_* folds the pair back
+    INV64 = pow(2**64, P - 2, P); nl = [0]
+    def wide(name, bound_h, pre=None, unary=False):
+        fn = lanes.find(ctx, cfg, name, T[name], n)
+        def h(it, args):
+            ins = [rdv(p) for p in args[2:]]
+            if all(all_concrete(v) for v in ins): return NotImplemented
+            if unary: ins = [ins[0], ins[0]]
+            if pre:
+                try: pre(ins)
+                except Unsupported as e:
+                    if not getattr(w, 'soft_pre', False): raise
+                    w.pre_failures.append(dict(kernel=name, fn=fn, msg=str(e), ins=[[v.cls if isinstance(v, FV) else v for v in vec] for vec in ins]))
+            hs = []; ls = []
+            for i in range(n):
+                nl[0] += 1; L = LF({('L', nl[0]): 1}, 0); pr = alg.mul(cls_of(ins[0][i], name), cls_of(ins[1][i], name))
+                ls.append(FV(L)); hs.append(FV(alg.mul(alg.sub(pr, L), INV64), ub=bound_h))
+            w.store_bytes(args[0], 8 * n, hs); w.store_bytes(args[1], 8 * n, ls); w.contracts_used.add('Goldilocks::' + name); return None
+        w.hooks[fn] = h
+    def fold(name, need32):
+        fn = lanes.find(ctx, cfg, name, T[name], n)
+        def h(it, args):
+            H = rdv(args[1]); Lo = rdv(args[2])
+            if all_concrete(H) and all_concrete(Lo): return NotImplemented
+            if need32:
+                for x in H:
+                    ubx = x.ub if isinstance(x, FV) else (x if is_c(x) else None)
+                    if ubx is None or ubx >= 2**32:
+                        msg = '%s: operand assumption c_h < 2^32 not dischargeable' % name
+                        if not getattr(w, 'soft_pre', False): raise Unsupported(msg)
+                        w.pre_failures.append(dict(kernel=name, fn=fn, msg=msg, ins=[[v.cls if isinstance(v, FV) else v for v in vec] for vec in (H, Lo)])); break
+            wrv(args[0], [alg.add(alg.mul(cls_of(H[i], name), 2**64 % P), cls_of(Lo[i], name)) for i in range(n)]); w.contracts_used.add('Goldilocks::' + name); return None
+        w.hooks[fn] = h
+    wide('mult' + sfx + '_72', 255, eight); wide('mult' + sfx + '_128', None); wide('square' + sfx + '_128', None, unary=True)
+    fold('reduce' + sfx + '_96_64', True); fold('reduce' + sfx + '_128_64', False)
     # spmv contracts (proved in C13/C14)
     from .props import mat
     for name, k in mat.kernels(n == 8).items():
